@@ -144,8 +144,10 @@ class Ctx:
                 except OSError:
                     shutil.copy(v, dst)
         jopts = []
-        if heap:
-            jopts.append("-Xmx%s" % heap)
+        if not heap:
+            # bounded heaps: many TLC processes run side by side (sharded trace validation, several checks)
+            heap = "2g" if str(workers) == "1" else "6g"
+        jopts.append("-Xmx%s" % heap)
         jopts.append("-Xss64m")
         if dfs:
             jopts.append("-Dtlc2.tool.queue.IStateQueue=StateDeque")
